@@ -28,7 +28,7 @@ CLAIMED = {
             '(17 kinds of mutation by a misbehaving instruction, symbolic timeouts, fault kinds); the three ways of running a case (suite, '
             '--suite, beside exactly.suite) through the real MainProgram with an absolute oracle on started processes; histories of 2-3 '
             'real cases in one suite run vs each alone; suite-supplied instructions referring to case-defined symbols (36 forms). '
-            'Selector-level for the program-level kernels.', '4/C17'),
+            'Selector-level for the program-level kernels. Round 5: hierarchies of 2-3 suites whose suite-level contents differ.', '4/C17'),
     'C18': ('Classification kernels: python_evaluate with eval stubbed to return a symbolic n / a non-integer / raise any of 64 exception '
             'classes or SystemExit, through the real integer parser and 14 instruction sites; the instruction-dictionary parser on symbolic '
             'source with a stub parser; regex validator with re.compile raising anything; the real replace transformer on a catalogue of bad '
@@ -38,7 +38,7 @@ CLAIMED = {
             'and validated by the real parse_atc_and_validate_symbols / validate_symbol_usages with the builtins predefined: accept iff an '
             'independent def/reference interpreter accepts (order, duplicates, builtins, 13 value types x 31 definition forms x 22 '
             'reference contexts, transitive through chains), rejects are VALIDATION_ERROR with nothing executed; visibility at execution '
-            'time through the real executor; substitution with SYMBOLIC string / list values through the real parsers.', '4/C08'),
+            'time through the real executor; substitution with SYMBOLIC string / list values through the real parsers. Rounds 4-5: visibility of a definition in EVERY step of later instructions; references written in the act phase for every actor.', '4/C08'),
     'C11': ('_expand_vars on every value up to length 5/6 over {$,{,},A,_,x} with a symbolic value of A against a regex-free reference; '
             'one env / timeout instruction executed in a symbolic settings state; histories of k <= 2/3 cd / env / timeout instructions '
             'in every phase placement through the real MainProgram with probe processes recorded by a subprocess stand-in (env=, timeout=, '
@@ -53,47 +53,47 @@ CLAIMED = {
             'text sources of file and env; run as transformer and as matcher) through the real MainProgram on generated cases, with the '
             'timeout literal and the child duration symbolic (bounded 0..99 quick / 0..9999 thorough): the timeout= handed to the OS stub is '
             'the value in force, exceeding it gives HARD_ERROR in that phase, cleanup still runs, the sandbox is removed. Real '
-            'termination / wall-clock bounds are outside the claim.', '4/C19'),
+            'termination / wall-clock bounds are outside the claim. Round 5: programs started in the act phase that are not the action to check; a cleanup process timing out after a failed assertion.', '4/C19'),
     'C14': ('Real string sources (str, file, transformed, concatenated, via writer / file descriptor) over a fake text-file layer with a '
             'SYMBOLIC text (<= 3-5 chars incl. CR, LF, FF, non-ASCII) and SYMBOLIC memory-buffer size m >= 1: every access sequence of '
             'as_str / as_lines / write_to / as_file / freeze yields the same characters and line division; equals across source kinds; '
-            'M vs ( M && M ) vs -transformed-by identity M. One known finding (carriage return) is excluded by region.', '4/C14'),
+            'M vs ( M && M ) vs -transformed-by identity M. One known finding (carriage return) is excluded by region. Rounds 4-5: transformers that change the number of lines (symbolic replacement string); degenerate white-space-only texts.', '4/C14'),
     'C05': ('Matchers and transformers obtained from the real parsers on concrete syntax (full sdv->ddv->adv->primitive chain) applied to '
             "exactly_lib's in-memory text source holding a SYMBOLIC string (|s| <= 4..5 over {a,b,A,space,tab,newline,.}), integer operands "
             'in Z, line-matcher verdicts symbolic per line, replacement results uninterpreted; compared with an independent interpreter of '
             'the manual (is-empty, equals, matches [-full], num-lines, every/any line, -transformed-by, replace [-at] [-preserve-new-lines], '
-            'strip variants, char-case, filter, grep, identity, | composition).', '4/C05'),
+            'strip variants, char-case, filter, grep, identity, | composition). Round 4: compositions nested in compositions (parentheses, symbols, attached to programs) and the is-identity attribute.', '4/C05'),
     'C06': ('Expression grammar of all six host types: the catalogue of expression texts (generated trees with every layout; all token '
             'strings up to a length bound) is enumerated by the harness on concrete text against a reference recogniser; one representative '
             'of every distinct parse structure is then evaluated under CrossHair with SYMBOLIC leaf verdicts / integer operands and compared '
-            '(value and asking order) with the generating tree. Shapes and layouts are concrete cases, leaf values are what the solver decides.',
+            '(value and asking order) with the generating tree. Shapes and layouts are concrete cases, leaf values are what the solver decides. Round 4: near-miss operator tokens at every operator position; the whole-text route through `def`.',
             '4/C06'),
     'C09': ('The real TokenStream/shlex (pure-Python StringIO stub) on a fully SYMBOLIC source (all strings up to length 3-5 over an 8-character '
             'alphabet) against an independent reader of the documented string syntax; reference splitting, fragment parsing, denotation '
-            'with symbolic symbol values, here-documents, lists and text-until-end-of-line on masked texts with symbolic holes.', '4/C09'),
+            'with symbolic symbol values, here-documents, lists and text-until-end-of-line on masked texts with symbolic holes. Round 4: tokens that mix hard quotes with other forms outside the (narrowed) region of the known finding.', '4/C09'),
     'C10': ('Command -> OS call with symbolic program / argument strings, timeout, exit code; test-case text -> denotation through the real '
             'parser, def/stdin instructions, actors, program-symbol chains (depth <= 3/4) with symbolic symbol values; whole program with a '
-            'recording stub at the single subprocess site; exit-code verdicts for all codes.', '4/C10'),
+            'recording stub at the single subprocess site; exit-code verdicts for all codes. Round 5: quoted option-like / reserved words at every argument position; output of the child that is not valid UTF-8.', '4/C10'),
     'C15': ('Real `exists PATH : FILE-MATCHER` and `dir` instructions on real directory fixtures: recursive walk with symbolic depth limits '
             'and symbolic per-file verdicts of selection/prune matchers vs the documented set; files-matchers with symbolic integer operands; '
             'FILE-LIST population (selector catalogue of specs x initial trees) vs a fold over an in-memory tree; file-name rules on a '
             'symbolic name.', '4/C15'),
     'C16': ('Real suite execution machinery (SuitesExecutor, DepthFirstEnumerator, both reporters, MainProgram suite command) on generated '
             'hierarchies and outcome assignments from the full set of 14 outcomes; selector-level, exhaustive over the stated catalogues; '
-            'glob match order symbolic.', '4/C16'),
+            'glob match order symbolic. Round 5: generated glob patterns (every construct, quoted / unquoted, relative / absolute) in reference lines.', '4/C16'),
     'C03': ('Stub-level: a defect of every kind at every pre-sandbox step leaves no main/post-setup/act step executed and no sandbox; '
             'the accessor stages never reach the executor on failure; and the real MainProgram.execute on generated test cases with '
             'one defective instruction out of a catalogue of 26+5 defects at every phase/position starts no process and creates no '
             'sandbox (recording subprocess stub, counting resolver), also for the symbol command. Selector-level enumeration, '
-            'exhaustive over the catalogue.', '4/C03'),
+            'exhaustive over the catalogue. Rounds 4-5: validation accumulated through program-symbol references, an undefined symbol in every argument position, definitions that refer to themselves, every actor of the act phase, and four ways of running (plain, symbol, --act, --keep).', '4/C03'),
     'C04': ('The real full_execution.execute on stub test cases with a real sandbox: for every step family as the site where execution '
             'ends with every kind of ending, with and without --keep, with a misbehaving instruction (chdir, read-only files, '
             'environment changes, removed cwd), the layout seen from inside the first step, tmp/ staying empty, result/ after act, '
-            'removal/preservation of the sandbox and restoration of cwd and os.environ are as documented.', '4/C04'),
+            'removal/preservation of the sandbox and restoration of cwd and os.environ are as documented. Round 4: every output mode through the real standalone processor (sandbox left and path printed iff --keep).', '4/C04'),
     'C02': ('translate_status against the manual table; the three real result reporters on every kind of result with a symbolic '
             'exit code 0..255 of the action to check; and the chain stub case + symbolic fault plan -> real executor -> real '
             'standalone Processor.process -> real reporter, whose (exit code, stdout, stderr) must equal the documented table applied '
-            'to the verdict of the documented protocol, in all three output modes; invalid command lines give 64 without identifier.',
+            'to the verdict of the documented protocol, in all three output modes; invalid command lines give 64 without identifier. Round 5: the status set by the suite in force vs the status set by the case (the case wins), through the real MainProgram.',
             '4/C02'),
     'C01': ('The real full_execution.execute on test cases of stub instructions + stub actor: for every instruction-count vector in '
             'the catalogue, every step as the site of the first fault with every applicable kind, followed by every later step '
@@ -103,7 +103,7 @@ CLAIMED = {
     'C13': ('Every line-matcher expression template in the catalogue (shape, negations, connectives concrete; comparison '
             'operators, integer operands in Z, verdicts of unknown matchers, line number symbolic) parsed by the real parser: '
             'the interval analysis covers every accepted line; filter / -line-nums output equals per-line evaluation for all '
-            'symbolic range bounds and texts up to N lines. Bounded model checking: exhaustive within the bounds, nothing outside.',
+            'symbolic range bounds and texts up to N lines. Bounded model checking: exhaustive within the bounds, nothing outside. Round 4: every ordered pair of range forms in the quick tier.',
             '4/C13'),
 }
 
